@@ -483,12 +483,305 @@ def gen_elem_cases(seed, n, start_id=0):
     return out
 
 
+# ---------------------------------------------------------------------------------------
+# resolveType stream: defineComponent calls with typed setup functions
+ATOM_TYPES = ["string", "number", "boolean", "object", "bigint", "symbol", "null", "any", "unknown", "undefined", "void", "never",
+              "'lit'", "1", "true", "1n", "`t${string}`", "() => void", "new () => Foo", "string[]", "[string, number]",
+              "{ a: 1 }", "{}", "{ (): void }", "Date", "Map<string, number>", "Set<string>", "WeakMap<object, any>", "Promise<string>",
+              "RegExp", "Error", "Array<string>", "Function", "Object", "Record<string, any>", "Partial<{ a: 1 }>", "Readonly<{ a: 1 }>",
+              "Uppercase<'a'>", "Parameters<typeof fn>", "InstanceType<typeof Foo>", "NonNullable<string | null>",
+              "Exclude<string | number, number>", "Extract<string | number, number>", "Foo", "Imported", "NS.T", "keyof Foo", "typeof fn",
+              "T0", "I0", "Arr0[number]", "Tup0[0]", "Tup0[number]", "Obj0['k']", "Obj0[string]", "Obj0['k' | 'j']", "Array<string>[number]"]
+TYPE_PRELUDE = ("class Foo {}\nfunction fn(a: number, b: string) {}\ntype T0 = string | number;\ninterface I0 { a: 1; (): void }\n"
+                "type Arr0 = boolean[];\ntype Tup0 = [string, number];\ntype Obj0 = { k: Date; j: number; m(): void; [x: string]: any };\n")
+PROP_KEYS = ["foo", "bar", "'baz-q'", "qux", "msg", "'onUpdate:x'", "count", "1"]
+
+
+class TGen(Gen):
+    def __init__(self, rng):
+        super().__init__(rng)
+        self.n = 0
+        self.pre = []
+        self.post = []
+
+    def fresh(self, p):
+        self.n += 1
+        return "%s%d" % (p, self.n)
+
+    def decl(self, text):
+        r = self.r
+        if r.chance(1, 4):
+            text = "export " + text
+            self.f("decl:export")
+        if r.chance(1, 3):
+            self.post.append(text); self.f("decl:after")
+        else:
+            self.pre.append(text); self.f("decl:before")
+
+    def atype(self, d=1):
+        r = self.r
+        k = r.below(10)
+        if d > 0 and k == 0:
+            return self.atype(d - 1) + " | " + self.atype(d - 1)
+        if d > 0 and k == 1:
+            return "(" + self.atype(d - 1) + ")"
+        if d > 0 and k == 2:
+            nm = self.fresh("AT")
+            self.decl("type %s = %s;" % (nm, self.atype(d - 1)))
+            return nm
+        if d > 0 and k == 3:
+            return self.atype(d - 1) + " & {}"
+        return r.pick(ATOM_TYPES)
+
+    def members(self, M):
+        out = []
+        for (key, opt, ty, kind) in M:
+            q = "?" if opt else ""
+            if kind == "method":
+                out.append("%s%s(): void" % (key, q))
+            elif kind == "getter":
+                out.append("get %s(): %s" % (key, ty))
+            else:
+                out.append("%s%s: %s" % (key, q, ty))
+        return "; ".join(out)
+
+    def split(self, M):
+        r = self.r
+        if len(M) < 2:
+            return M, []
+        k = 1 + r.below(len(M) - 1)
+        return M[:k], M[k:]
+
+    def enc(self, M, d):
+        """a type expression denoting exactly the prop map M"""
+        r = self.r
+        ops = ["lit"] if d <= 0 else ["lit", "alias", "iface", "extends", "merge", "inter", "paren", "partial", "required",
+                                      "pick", "omit", "index", "chain"]
+        op = r.pick(ops)
+        plain = [m for m in M if m[3] != "getter"]
+        if op == "partial" and not (M and all(m[1] for m in plain) and len(plain) == len(M)):
+            op = "lit"
+        if op == "required" and not (M and all(not m[1] for m in M)):
+            op = "lit"
+        self.f("enc:" + op)
+        if op == "lit":
+            return "{ " + self.members(M) + " }"
+        if op == "alias":
+            nm = self.fresh("A")
+            self.decl("type %s = %s;" % (nm, self.enc(M, d - 1)))
+            return nm
+        if op == "chain":
+            a, b = self.fresh("A"), self.fresh("A")
+            self.decl("type %s = %s;" % (a, b))
+            self.decl("type %s = %s;" % (b, self.enc(M, d - 1)))
+            return a
+        if op == "iface":
+            nm = self.fresh("I")
+            self.decl("interface %s { %s }" % (nm, self.members(M)))
+            return nm
+        if op == "extends":
+            m1, m2 = self.split(M)
+            a, b = self.fresh("I"), self.fresh("I")
+            self.decl("interface %s { %s }" % (b, self.members(m2)))
+            self.decl("interface %s extends %s { %s }" % (a, b, self.members(m1)))
+            return a
+        if op == "merge":
+            m1, m2 = self.split(M)
+            nm = self.fresh("I")
+            self.decl("interface %s { %s }" % (nm, self.members(m1)))
+            self.decl("interface %s { %s }" % (nm, self.members(m2)))
+            return nm
+        if op == "inter":
+            m1, m2 = self.split(M)
+            return self.enc(m1, d - 1) + " & " + self.enc(m2, d - 1)
+        if op == "paren":
+            return "(" + self.enc(M, d - 1) + ")"
+        if op == "partial":
+            return "Partial<" + self.enc([(k, r.chance(1, 2), t, kd) for (k, o, t, kd) in M], d - 1) + ">"
+        if op == "required":
+            return "Required<" + self.enc([(k, r.chance(1, 2), t, kd) for (k, o, t, kd) in M], d - 1) + ">"
+        extra = [("zextra", False, "number", "prop"), ("'z-other'", True, "string", "prop")]
+        if op == "pick":
+            if not M:
+                return "{ }"
+            keys = " | ".join("'%s'" % k.strip("'") for (k, _, _, _) in M)
+            if r.chance(1, 3):
+                kn = self.fresh("K"); self.decl("type %s = %s;" % (kn, keys)); keys = kn
+            return "Pick<%s, %s>" % (self.enc(M + extra, d - 1), keys)
+        if op == "omit":
+            return "Omit<%s, 'zextra' | 'z-other'>" % self.enc(M + extra, d - 1)
+        if op == "index":
+            nm = self.fresh("W")
+            if r.chance(1, 2):
+                self.decl("type %s = { k: %s; other: number };" % (nm, self.enc(M, d - 1)))
+            else:
+                self.decl("interface %s { k: %s; other: number }" % (nm, self.enc(M, d - 1)))
+            return "%s['k']" % nm
+        return "{ " + self.members(M) + " }"
+
+    def prop_map(self):
+        r = self.r
+        n = r.below(5)
+        keys = list(PROP_KEYS)
+        M = []
+        for _ in range(n):
+            k = keys.pop(r.below(len(keys)))
+            kind = r.wpick([(6, "prop"), (1, "method"), (1, "getter")])
+            M.append((k, r.chance(1, 2) if kind != "getter" else False, self.atype(1), kind))
+        return M
+
+    def events(self):
+        """(type text, event names)"""
+        r = self.r
+        names = []
+        pool = ["change", "update:modelValue", "before-close", "a", "b"]
+        for _ in range(r.below(4)):
+            names.append(pool.pop(r.below(len(pool))))
+        form = r.below(7)
+        self.f("emits:%d" % form)
+        if not names:
+            return r.pick(["{}", "() => void"]), []
+        lits = " | ".join("'%s'" % n for n in names)
+        if form == 0:
+            return "(e: %s, ...args: any[]) => void" % lits, names
+        if form == 1:
+            return " | ".join("((e: '%s', v: number) => void)" % n for n in names), names
+        if form == 2:
+            return "{ " + "; ".join("(e: '%s'): void" % n for n in names) + " }", names
+        if form == 3:
+            nm = self.fresh("E"); b = self.fresh("E")
+            self.decl("interface %s { (e: '%s'): void }" % (b, names[0]))
+            self.decl("interface %s extends %s { %s }" % (nm, b, "; ".join("(e: '%s'): void" % n for n in names[1:])))
+            return nm, names[1:] + names[:1]
+        if form == 4:
+            return "{ " + "; ".join("'%s': [v: number]" % n for n in names) + " }", names
+        if form == 5:
+            ev = self.fresh("Ev"); self.decl("type %s = %s;" % (ev, lits))
+            return "(e: %s) => void" % ev, names
+        nm = self.fresh("E")
+        self.decl("type %s = { %s } & { %s };" % (nm, "(e: '%s'): void" % names[0], "; ".join("(e: '%s'): void" % n for n in names[1:])))
+        return nm, names
+
+    def defaults(self, M):
+        r = self.r
+        form = r.below(8)
+        self.f("defaults:%d" % form)
+        if form <= 1 or not M:
+            return ""
+        if form == 2:
+            return " = dflt"
+        items = []
+        for (k, o, t, kind) in M:
+            c = r.below(9)
+            if c == 0:
+                continue
+            if c == 1:
+                items.append("%s: %s" % (k, r.pick(["1", "'s'", "true", "null"])))
+            elif c == 2:
+                items.append("%s: %s" % (k, r.pick(["fn()", "[1]", "{ a: 1 }", "() => 1", "function () { return 2 }", "foo.bar"])))
+            elif c == 3 and k.isidentifier():
+                items.append(k)
+            elif c == 4:
+                items.append("get %s() { return 1 }" % k)
+            elif c == 5:
+                items.append("%s() { return 1 }" % k)
+            elif c == 6:
+                items.append("async %s() { return 1 }" % k)
+            elif c == 7:
+                kk = k.strip("'")
+                items.append("'%s': 1" % kk if k.isidentifier() else "%s: 2" % kk if kk.isidentifier() else "['%s']: 3" % kk)
+            else:
+                items.append("['%s']: %s" % (k.strip("'"), r.pick(["4", "fn()"])))
+        if r.chance(1, 5):
+            items.append("extra: 1")
+        if form == 3:
+            items.append("...dflt")
+        if form == 4:
+            items.append("[dyn]: 1")
+        return " = { " + ", ".join(items) + " }"
+
+    def options_arg(self):
+        r = self.r
+        k = r.below(12)
+        self.f("optarg:%d" % k)
+        return [None, None, None, "{}", "{ name: 'Named' }", "{ props: ['x'] }", "{ emits: ['e'], inheritAttrs: false }",
+                "{ 'props': {}, 'name': 'Q' }", "{ props, emits() {} }", "{ ...base, inheritAttrs: false }", "base", "makeOpts()"][k]
+
+    def ts_module(self):
+        r = self.r
+        prov = r.wpick([(10, "named"), (1, "aliased"), (1, "namespace"), (1, "local"), (1, "shadow"), (1, "other"), (1, "none")])
+        self.f("prov:" + prov)
+        head = {"named": "import { defineComponent, SetupContext } from 'vue';", "aliased": "import { defineComponent as dc, SetupContext } from 'vue';",
+                "namespace": "import * as Vue from 'vue'; import { SetupContext } from 'vue';", "local": "function defineComponent(...a: any[]) { return a }",
+                "shadow": "import { defineComponent, SetupContext } from 'vue';", "other": "import { defineComponent } from './vue';",
+                "none": "import { h } from 'vue';"}[prov]
+        callee = {"aliased": "dc", "namespace": "Vue.defineComponent"}.get(prov, "defineComponent")
+        M = self.prop_map()
+        pty = self.enc(M, 1 + r.below(3))
+        ety, enames = self.events()
+        second = r.wpick([(4, ""), (4, ", ctx: SetupContext<%s>" % ety), (2, ", { emit }: SetupContext<%s>" % ety), (1, ", ctx: Other<%s>" % ety),
+                          (1, ", ctx"), (1, ", ctx: SetupContext")])
+        first = r.wpick([(8, "props: %s%s" % (pty, self.defaults(M))), (1, "{ foo }: %s" % pty), (1, "props"), (1, "[a]: %s" % pty)])
+        body = r.pick(["() => null", "{ return () => <div>{1}</div> }", "null"])
+        setup = r.wpick([(6, "(%s%s) => %s" % (first, second, body)), (3, "function (%s%s) { return null }" % (first, second)),
+                         (1, "async (%s%s) => null" % (first, second)), (1, "{ setup() {} }")])
+        oa = self.options_arg()
+        args = setup if oa is None else setup + ", " + oa
+        if r.chance(1, 12):
+            args = setup + ", ...rest"; self.f("spreadargs")
+        if r.chance(1, 14):
+            args = ""
+        call = "%s(%s)" % (callee, args)
+        dk = r.below(8)
+        self.f("declkind:%d" % dk)
+        stmt = ["const Comp = %s;", "let Comp = %s;", "var Comp = %s;", "export const Comp = %s;", "export default %s;", "Comp2 = %s;",
+                "const Comp = (%s);", "const { x } = %s;"][dk] % call
+        lines = [head, "let Comp2; const base = {}; const props = {}; const dflt = {}; const dyn = 'k'; function makeOpts() { return {} } const foo = { bar: 1 };",
+                 TYPE_PRELUDE]
+        scoped = r.chance(1, 5)
+        if scoped:
+            self.f("scoped")
+            # an outer declaration with the same name as an inner one but another shape
+            inner = self.pre + [stmt] + self.post
+            outer_decoys = []
+            for t in self.pre + self.post:
+                import re as _re
+                m = _re.match(r"(?:export )?(type|interface) (\w+)", t)
+                if m and r.chance(1, 2):
+                    outer_decoys.append("%s %s %s" % (m.group(1), m.group(2), "= { decoy: number };" if m.group(1) == "type" else "{ decoy: number }"))
+            lines += outer_decoys
+            if prov == "shadow":
+                inner = ["function defineComponent(...a: any[]) { return a }"] + inner
+            lines.append("function scope1() {\n  " + "\n  ".join(x.replace("export ", "") for x in inner) + "\n}")
+        else:
+            if prov == "shadow":
+                lines += self.pre
+                lines.append("function scope1(defineComponent: any) { %s }" % stmt.replace("export default", "return").replace("export ", ""))
+                lines += self.post
+            else:
+                lines += self.pre + [stmt] + self.post
+        truth = {"props": [[k.strip("'"), (not o) if kind != "getter" else True] for (k, o, t, kind) in M], "emits": enames,
+                 "augmentable": prov == "named"}
+        return "\n".join(lines) + "\n", truth
+
+
 def gen_types_cases(seed, n, start_id=0):
-    """placeholder until the type stream is written: no cases"""
-    return []
+    out = []
+    for i in range(n):
+        g = TGen(Rng(seed * 7368787 + i))
+        src, truth = g.ts_module()
+        o = {"resolveType": True}
+        r = g.r
+        if r.chance(1, 3):
+            o["optimize"] = True
+        if r.chance(1, 10):
+            o["resolveType"] = False
+        out.append({"id": start_id + i, "src": src, "syntax": "tsx", "options": json.dumps(o), "stream": "types",
+                    "feat": sorted(g.feat), "truth": truth})
+    return out
 
 
 if __name__ == "__main__":
     seed = int(sys.argv[1]); n = int(sys.argv[2])
-    for c in gen_elem_cases(seed, n):
+    for c in (gen_types_cases(seed, n) if len(sys.argv) > 3 and sys.argv[3] == "types" else gen_elem_cases(seed, n)):
         print(json.dumps(c))
